@@ -38,10 +38,7 @@ import (
 	"errors"
 	"fmt"
 	"os"
-	"reflect"
 	"sort"
-	"strings"
-	"sync"
 	"sync/atomic"
 	"time"
 
@@ -98,6 +95,18 @@ var optionSets = []model.Options{
 	{HardLimit: 3, SoftQuota: 2, BurstCredit: 0.5},
 	{HardLimit: 4, SoftQuota: 2, BurstCredit: 1},
 }
+
+// thoroughExtra are added in the thorough tier.
+var thoroughExtra = []model.Options{
+	{HardLimit: 4, SoftQuota: 1, BurstCredit: 3},
+	{HardLimit: 4, SoftQuota: 3, BurstCredit: 1},
+	{HardLimit: 5, SoftQuota: 2, BurstCredit: 1.5},
+	{HardLimit: 5, SoftQuota: 3, BurstCredit: 2},
+}
+
+// boundedDepth stops the exploration of a bounded queue that has not closed
+// its state space by then (none of the option sets here gets near it).
+const boundedDepth = 30
 
 // ---------------------------------------------------------------- real side
 
@@ -170,38 +179,6 @@ func (rq *realQ) call(ctx context.Context, in model.Input) model.Output {
 	panic("unknown op")
 }
 
-// hidden reads the real tracker's state for the canonical key ("" if the
-// layout is not the expected one).
-func hidden(q any) (s string) {
-	defer func() {
-		if recover() != nil {
-			s = ""
-		}
-	}()
-	t := reflect.ValueOf(q).Elem().FieldByName("tracker")
-	if !t.IsValid() || t.IsNil() {
-		return ""
-	}
-	st := t.Elem()
-	if st.Kind() == reflect.Ptr {
-		st = st.Elem()
-	}
-	var parts []string
-	for _, f := range []string{"length", "softQuota", "credit"} {
-		fv := st.FieldByName(f)
-		if !fv.IsValid() {
-			continue
-		}
-		switch fv.Kind() {
-		case reflect.Int:
-			parts = append(parts, fmt.Sprintf("%s=%d", f, fv.Int()))
-		case reflect.Float64:
-			parts = append(parts, fmt.Sprintf("%s=%.6f", f, fv.Float()+0))
-		}
-	}
-	return strings.Join(parts, ",")
-}
-
 // ---------------------------------------------------------------- one history
 
 type detail struct {
@@ -221,12 +198,12 @@ type spec struct {
 	evals     atomic.Int64
 	hiddenOK  atomic.Bool
 	hiddenDiv atomic.Int64 // histories after which the real hidden tracker differs from the model's
-	inflight  *inflight
+	mon       *guard.Monitor
 }
 
 func (sp *spec) run(hist []int) (res seq.Result) {
-	id := sp.inflight.begin(sp.opt.String(), hist)
-	defer sp.inflight.end(id)
+	id := sp.mon.Begin(sp.opt.String(), hist)
+	defer sp.mon.End(id)
 
 	rq, err := newReal(sp.opt)
 	m, merr := model.New(sp.opt)
@@ -246,7 +223,7 @@ func (sp *spec) run(hist []int) (res seq.Result) {
 	}
 
 	key := m.Key()
-	if h := hidden(rq.q); h != "" {
+	if h := guard.TrackerState(rq.q); h != "" {
 		sp.hiddenOK.Store(true)
 		key += " | real " + h
 		if !sp.opt.Unlimited {
@@ -363,65 +340,6 @@ func (sp *spec) step(rq *realQ, m *model.State, od opDef) (fail string, d detail
 	return "", d, ctxErr
 }
 
-// ---------------------------------------------------------------- hang monitor
-
-// inflight bounds the harness itself: lock-only operations (Add, Remove, Len,
-// Close, Send) run unguarded; if any history takes longer than hangLimit the
-// monitor reports it and ends the process instead of hanging.
-type inflight struct {
-	mu   sync.Mutex
-	next int
-	m    map[int]*flight
-}
-
-type flight struct {
-	opt   string
-	hist  []int
-	start time.Time
-}
-
-const hangLimit = 90 * time.Second
-
-func (f *inflight) begin(opt string, hist []int) int {
-	f.mu.Lock()
-	defer f.mu.Unlock()
-	f.next++
-	f.m[f.next] = &flight{opt, hist, time.Now()}
-	return f.next
-}
-
-func (f *inflight) end(id int) {
-	f.mu.Lock()
-	delete(f.m, id)
-	f.mu.Unlock()
-}
-
-func (f *inflight) monitor(r *rep.Report, scenario string, names func(int) string, stop <-chan struct{}) {
-	t := time.NewTicker(5 * time.Second)
-	defer t.Stop()
-	for {
-		select {
-		case <-stop:
-			return
-		case <-t.C:
-		}
-		f.mu.Lock()
-		for _, fl := range f.m {
-			if time.Since(fl.start) > hangLimit {
-				h := make([]string, len(fl.hist))
-				for i, op := range fl.hist {
-					h[i] = names(op)
-				}
-				r.Violation(scenario+"/hang", map[string]any{"options": fl.opt, "history": h,
-					"note": fmt.Sprintf("replaying this history did not finish within %v (a lock-only operation never returned)", hangLimit)})
-				f.mu.Unlock()
-				os.Exit(r.Finish())
-			}
-		}
-		f.mu.Unlock()
-	}
-}
-
 // ---------------------------------------------------------------- driver
 
 // Run explores every option set up to the tier's depth.
@@ -432,10 +350,16 @@ func Run(r *rep.Report, tier string) {
 	}
 	deadline := time.Now().Add(budget)
 
-	fl := &inflight{m: map[int]*flight{}}
-	stop := make(chan struct{})
-	defer close(stop)
-	go fl.monitor(r, "queue", func(op int) string { return alphabet[op].name }, stop)
+	mon := guard.NewMonitor(func(label string, hist []int) {
+		h := make([]string, len(hist))
+		for i, op := range hist {
+			h[i] = alphabet[op].name
+		}
+		r.Violation("queue/hang", map[string]any{"options": label, "history": h,
+			"note": fmt.Sprintf("replaying this history did not finish within %v (a lock-only operation never returned)", guard.HangLimit)})
+		os.Exit(r.Finish())
+	})
+	defer mon.Stop()
 
 	type found struct {
 		f   seq.Failure
@@ -444,17 +368,30 @@ func Run(r *rep.Report, tier string) {
 	best := map[string]found{}
 	exhaustive := true
 	hiddenInKey := true
-	minDepth := depth
+	shortfalls := []string{}
 	var perOpt []string
 
-	for _, o := range optionSets {
-		sp := &spec{opt: o, inflight: fl}
+	sets := optionSets
+	if tier == "thorough" {
+		sets = append(append([]model.Options{}, sets...), thoroughExtra...)
+	}
+	for _, o := range sets {
+		sp := &spec{opt: o, mon: mon}
+		// The unlimited queue has an unbounded state space: explored to the
+		// tier's depth. A bounded queue has a finite one (contents over {1,2} up
+		// to the hard limit x closed x finitely many quota/credit values) that
+		// closes after 5-20 levels for the option sets used here, so it is
+		// explored until the frontier is empty (boundedDepth is only a stop).
+		maxDepth := depth
+		if !o.Unlimited {
+			maxDepth = boundedDepth
+		}
 		st := seq.Explore(seq.Spec{
 			Name:     "queue{" + o.String() + "}",
 			NumOps:   len(alphabet),
 			OpName:   func(op int) string { return alphabet[op].name },
 			Run:      sp.run,
-			MaxDepth: depth,
+			MaxDepth: maxDepth,
 			Deadline: deadline,
 		})
 		r.Add("states", st.States)
@@ -466,19 +403,16 @@ func Run(r *rep.Report, tier string) {
 		if !st.Exhaustive {
 			exhaustive = false
 		}
-		if st.Depth < minDepth && len(st.Failures) == 0 {
-			// a space may be exhausted before MaxDepth (capacity 1 after Close);
-			// only a deadline makes this a shortfall
-			if !st.Exhaustive {
-				minDepth = st.Depth
-			}
+		if !st.Exhaustive {
+			shortfalls = append(shortfalls, fmt.Sprintf("%s: deadline hit, depth %d completed", o, st.Depth))
 		}
 		if !sp.hiddenOK.Load() {
 			hiddenInKey = false
 		}
-		perOpt = append(perOpt, fmt.Sprintf("%s: states=%d transitions=%d depth=%d exhaustive=%v", o, st.States, st.Transitions, st.Depth, st.Exhaustive))
-		for _, s := range st.Sample {
-			if len(perOpt) <= 3 {
+		closed := st.Exhaustive && st.Depth < maxDepth
+		perOpt = append(perOpt, fmt.Sprintf("%s: states=%d transitions=%d depth=%d/%d exhaustive=%v state_space_closed=%v", o, st.States, st.Transitions, st.Depth, maxDepth, st.Exhaustive, closed))
+		for i, s := range st.Sample {
+			if i < 1 || (i == len(st.Sample)-1 && len(perOpt) <= 4) {
 				r.Sample(o.String() + ": " + s)
 			}
 		}
@@ -513,11 +447,13 @@ func Run(r *rep.Report, tier string) {
 
 	slow, fast := guard.Counts()
 	r.Set("exhaustive", exhaustive)
-	r.Set("seq_depth", depth)
-	r.Set("seq_depth_completed", minDepth)
+	r.Set("seq_exhaustive", exhaustive)
+	r.Set("seq_depth_unlimited_queue", depth)
+	r.Set("seq_depth_bounded_queues", fmt.Sprintf("until the state space is closed (stop at %d)", boundedDepth))
+	r.Set("seq_deadline_shortfalls", shortfalls)
 	r.Set("seq_option_sets", perOpt)
 	r.Set("hidden_state_in_key", hiddenInKey)
 	r.Set("blocked_verdicts_2s_rule", int(slow))
 	r.Set("blocked_verdicts_parked_rule", int(fast))
-	r.Set("rule", "sequential conformance: BFS over all operation histories up to seq_depth from {Add 1|2, Remove, Len, Close, Wait (live when non-empty or closed, cancelled ctx otherwise), Wait with cancelled ctx, BlockingAdd (live when admissible, cancelled ctx otherwise), BlockingAdd with cancelled ctx, Distributor Send/Receive/Len} for the unlimited queue and 6 (hard,soft,credit) option sets; states merged by (model state, real tracker triple); each history replayed on a fresh real queue and compared with the reference model operation by operation, then drained and compared item by item")
+	r.Set("rule", "sequential conformance: BFS over all operation histories (unlimited queue: up to seq_depth_unlimited_queue; bounded queues: until no new state appears) from {Add 1|2, Remove, Len, Close, Wait (live when non-empty or closed, cancelled ctx otherwise), Wait with cancelled ctx, BlockingAdd (live when admissible, cancelled ctx otherwise), BlockingAdd with cancelled ctx, Distributor Send/Receive/Len} for the option sets listed in seq_option_sets; states merged by (model state, real tracker triple); each history replayed on a fresh real queue and compared with the reference model operation by operation, then drained and compared item by item")
 }
